@@ -300,7 +300,7 @@ def run(s):
     s.assume("A-QHA (least-squares fit, eulerian strain, v2p), A-PANDAS, A-CLICK, scipy spline")
     s.undecided_part("the finite-strain fits, P = -dF/dV, the three interpolation modes, option handling and printing: bounded run-time contract on the printed table only")
     rnd = random.Random(s.seed)
-    n = 6 if s.tier == "quick" else 120
+    n = 36 if s.tier == "quick" else 360
     fails, evals, distinct = [], 0, 0
     tmp = tempfile.mkdtemp(prefix="c18_")
     try:
@@ -316,10 +316,15 @@ def run(s):
             a0, a1, a2 = rnd.uniform(-40, -5), rnd.uniform(-0.5, 0.5), rnd.uniform(5, 40)
             Efun = lambda v: a0 + a1 * strain(Vref, v) + a2 * strain(Vref, v) ** 2          # exactly quadratic in Eulerian strain (any reference)
             dEdV = lambda v: (a1 + 2 * a2 * strain(Vref, v)) * (-(1.0 / 3.0) * Vref ** (2.0 / 3.0) * v ** (-5.0 / 3.0))
-            use_table = (t % 4 != 3)                 # option combinations are cycled so that every tier covers table x cell-mass x mode
-            system = rnd.choice([None, "cubic"]) if use_table else None
+            # option combinations are a covering design: every (mode, table variant) pair within 9 consecutive runs, the cell-mass option with and without a
+            # table, the sampling option with and without a crystal system, two expansion ratios
+            tv = (t // 3) % 3                        # 0: table + crystal system, 1: table, 2: no table
+            use_table = tv != 2
+            system = "cubic" if tv == 0 else None
             mass_tab = round(rnd.uniform(50, 400), 4)
-            cellmass = round(rnd.uniform(50, 400), 3) if t % 2 == 0 else None
+            cellmass = round(rnd.uniform(50, 400), 3) if (t + t // 3) % 2 == 0 else None
+            vr = 1.2 if (t // 9) % 2 == 0 else 1.35
+            sample = 2 + (t // 9) % 2 if (t % 3 == 2 and (t // 3) % 2 == 0) else None
             table = None
             mods = {}
             if use_table:
@@ -342,6 +347,10 @@ def run(s):
                 pmin = round(lo + 0.1 * (hi - lo), 2)
                 dp = round(0.7 * (hi - lo) / (ntv - 1), 3)
                 args = args[:-1] + [str(ntv), "--p-min", str(pmin), "--delta-p", str(dp)]
+                if sample:
+                    args += ["--delta-p-sample", str(round(sample * dp, 6))]
+            if vr != 1.2:
+                args += ["--v-ratio", str(vr)]
             if system:
                 args += ["-s", system]
             if cellmass:
@@ -356,7 +365,7 @@ def run(s):
             df = parse(res.output)
             Vau = df["V"].to_numpy() / ANG3
             msg = None
-            h = (V.max() * 1.2 - V.min() / 1.2) / (ntv - 1)          # the EoS grid has ntv points in every mode
+            h = (V.max() * vr - V.min() / vr) / (ntv - 1)          # the EoS grid has ntv points in every mode
             scaleP = abs(numpy.array([dEdV(v) for v in V])).max() * GPA
             tolP = scaleP * (2e-3 + 30 * (h / V.mean()) ** 2)
             Pexact = -numpy.array([dEdV(v) for v in Vau]) * GPA
@@ -365,13 +374,13 @@ def run(s):
                 if len(df) != nv or not numpy.allclose(Vau, V, rtol=1e-6) or not numpy.allclose(df["F"].to_numpy(), numpy.array([Efun(v) for v in V]) * RY_EV, rtol=1e-5, atol=1e-5):
                     msg = "mode none: rows are not the input volumes / energies in A^3 and eV"
             elif mode == "volume":
-                want = numpy.linspace(V.min() / 1.2, V.max() * 1.2, ntv)
+                want = numpy.linspace(V.min() / vr, V.max() * vr, ntv)
                 if len(df) != ntv or not numpy.allclose(Vau, want, rtol=1e-6):
-                    msg = "mode volume: volume grid differs from linspace(min/1.2, max*1.2, %d)" % ntv
+                    msg = "mode volume: volume grid differs from linspace(min/%g, max*%g, %d)" % (vr, vr, ntv)
             else:
-                want = pmin + dp * numpy.arange(ntv)
-                if len(df) != ntv or not numpy.allclose(df["P"].to_numpy(), want, rtol=1e-6, atol=1e-6):
-                    msg = "mode pressure: rows are not at the requested pressures"
+                want = (pmin + dp * numpy.arange(ntv))[::(sample or 1)]
+                if len(df) != len(want) or not numpy.allclose(df["P"].to_numpy(), want, rtol=1e-6, atol=1e-6):
+                    msg = "mode pressure: rows are not at the requested%s pressures" % (" (every %d-th)" % sample if sample else "")
             if not msg and mode != "none" and not numpy.allclose(df["F"].to_numpy()[inner], numpy.array([Efun(v) for v in Vau])[inner] * RY_EV, rtol=0,
                                                                  atol=1e-4 * abs(a0) * RY_EV + (tolP / GPA * RY_EV * 5 * h if mode == "pressure" else 0)):
                 msg = "F is not the second-order finite-strain fit of the input energies at the reported V (max dev %.3g eV; volumes listed %s)" % (
